@@ -286,7 +286,7 @@ func DrawVerifyCase(t *rapid.T) VerifyCase {
 	r := gen.Rand(t, "content")
 	d, _, _ := PrivKey(t, "d")
 	px, py, pub := Pub(d)
-	cls := gen.Pick(t, "vclass", "valid", "valid-shaped", "bitflip", "bitflip", "length", "r=0", "s=0", "r+s=n", "R=inf", "r+n", "s+n",
+	cls := gen.Pick(t, "vclass", "valid", "valid-shaped", "bitflip", "bitflip", "length", "r=0", "s=0", "s=n", "r+s=n", "R=inf", "r+n", "s+n",
 		"x+p", "y>=p", "offcurve", "negY", "zeroKey", "garbage", "swap", "r>=n", "e+n")
 	// a valid signature to start from
 	mk := func(shaped bool) (e, rb, sb []byte) {
@@ -371,6 +371,10 @@ func DrawVerifyCase(t *rapid.T) VerifyCase {
 		c.E, c.R, c.S, _ = solve(s, s)
 	case "s=0":
 		c.E, c.R, c.S, _ = solve(big.NewInt(0), uni())
+	case "s=n":
+		// s = n is 0 mod n: the equation holds for s = 0; presented as the 32-byte value n (out of range)
+		c.E, c.R, c.S, _ = solve(big.NewInt(0), uni())
+		c.S = gen.Pad32(N)
 	case "r+s=n":
 		c.E, c.R, c.S, _ = solve(uni(), big.NewInt(0))
 	case "R=inf":
